@@ -222,7 +222,9 @@ def check_builtins(res, env):
     real = {n: getattr(builtins, n) for n in dir(builtins)}
     for n in sorted(real):
         for via, src in (("plain", f"got = {n}"), ("eval", f"got = eval({n!r})"), ("func", f"def f():\n    return {n}\ngot = f()"),
-                         ("exec", f"exec('got = {n}')")):
+                         ("exec", f"exec('got = {n}')"), ("global", f"def f():\n    global {n}\n    return {n}\ngot = f()"),
+                         ("shadow_del", f"{n} = 1\ndel {n}\ngot = {n}"),
+                         ("method", f"class C:\n    def m(self):\n        return {n}\nc = C()\ngot = c.m()")):
             if not n.isidentifier() or n in ("None", "True", "False", "__debug__"):
                 continue
             exc, bound, _ = env.run(src, False)
@@ -231,7 +233,7 @@ def check_builtins(res, env):
             res.case(("builtin", n in EXCLUDED, via, exc), nontrivial=n in EXCLUDED, config="builtins", sample=case)
             if n in EXCLUDED and got is real[n]:
                 res.fail(f"excluded-builtin-reachable|{n}|{via}", case, expected="not the real builtin", observed=repr(got))
-            if n not in EXCLUDED and not n.startswith("_") and n not in ("eval", "exec", "globals", "locals") and exc is None and got is not real[n]:
+            if via not in ("global",) and n not in EXCLUDED and not n.startswith("_") and n not in ("eval", "exec", "globals", "locals") and exc is None and got is not real[n]:
                 res.fail(f"builtin-replaced|{n}|{via}", case, expected=repr(real[n]), observed=repr(got))
     # print / log write to the script's logger
     records = []
